@@ -67,6 +67,9 @@ int main() {
   dump_const("pp_index_max", Opcode::kPP_FPUMask >> Opcode::kPP_Shift);
   dump_const("mm_index_max", Opcode::kMM_Mask >> Opcode::kMM_Shift);
   dump_const("mm_shift", Opcode::kMM_Shift);
+  dump_const("encoding_fpu_first", InstDB::kEncodingFpuOp);    // x87: opcodes are rebuilt from constants (two-byte FPU form), not looked up through mm
+  dump_const("encoding_ext_first", InstDB::kEncodingExtRm);
+  dump_const("encoding_vex_first", InstDB::kEncodingVexOp);   // every encoding from here on is emitted by EmitVex*/EmitAmx* (checked textually by the python part)
   dump_const("inst_id_count", Inst::_kIdCount);
   dump_const("inst_info_table_len", sizeof(InstDB::_inst_info_table) / sizeof(InstDB::_inst_info_table[0]));
   dump_const("common_info_table_len", sizeof(InstDB::_inst_common_info_table) / sizeof(InstDB::_inst_common_info_table[0]));
@@ -76,7 +79,7 @@ int main() {
     printf("rows x86_inst %zu", n);
     for (size_t i = 0; i < n; i++) {
       const InstDB::InstInfo& ii = InstDB::_inst_info_table[i];
-      printf(" %u:%u:%u", unsigned(ii._main_opcode_index), unsigned(ii._alt_opcode_index), unsigned(ii._common_info_index));
+      printf(" %u:%u:%u:%u", unsigned(ii._main_opcode_index), unsigned(ii._alt_opcode_index), unsigned(ii._common_info_index), unsigned(ii._encoding));
     }
     printf("\n"); }
   { size_t n = sizeof(InstDB::_inst_common_info_table) / sizeof(InstDB::_inst_common_info_table[0]);
